@@ -4,7 +4,7 @@
     [C11/Proofs.v] / [C11/Threads.v] and followed by [Print Assumptions]. *)
 From Coq Require Import List Bool Arith String Ascii.
 Import ListNotations.
-From Attrs Require Import C11.Model C11.Proofs C11.Threads.
+From Attrs Require Import C11.Model C11.Proofs C11.Threads C11.Script C11.ScriptProofs.
 Open Scope string_scope.
 Open Scope list_scope.
 
@@ -126,3 +126,26 @@ Theorem shared_set_refuted :
     = Some (Ok "...").
 Proof. exact shared_set_breaks_isolation. Qed.
 Print Assumptions shared_set_refuted.
+
+(** Script level: the syntax tree the model derives for a class's field list
+    ([repr_function]: the try/except/else prologue on the thread-local attribute, the
+    try/finally around the f-string, the f-string's pieces), executed by the statement
+    interpreter, IS the model's instance semantics ([enter] / [run_parts] / [leave]) ... *)
+Theorem script_semantics : forall h rec o st qn sf bs fs attrs,
+  NoDup (map f_name fs) ->
+  nth_error h o = Some (OI qn sf bs fs attrs) ->
+  exec_function rec fs o qn attrs (repr_function fs) st = repr_obj h rec o st.
+Proof. exact script_semantics_l. Qed.
+Print Assumptions script_semantics.
+
+(** ... so for every class whose REAL generated source parses to a tree on which
+    [script_case_ok] answers [true] (checked by coqc for the classes of each run), the
+    parsed real source means exactly the model, for all instances and states. *)
+Theorem script_tie_meaning : forall c,
+  script_case_ok c = true ->
+  NoDup (map f_name (sc_fields c)) ->
+  forall h rec o st qn sf bs attrs,
+    nth_error h o = Some (OI qn sf bs (sc_fields c) attrs) ->
+    exec_function rec (sc_fields c) o qn attrs (sc_body c) st = repr_obj h rec o st.
+Proof. exact script_tie_meaning_l. Qed.
+Print Assumptions script_tie_meaning.
